@@ -252,6 +252,55 @@ def ref_replace(e, s, r, decide):
     return r if decide(eq) else ne
 
 
+def ref_replace_map(e, pairs, decide):
+    """reference simultaneous substitution for a map of several entries whose keys are pairwise different and not nested:
+    bottom-up, a rebuilt node equal to a key becomes that key's replacement; replacements are not descended into"""
+    if isinstance(e, (X.ExprInt, X.ExprId)):
+        ne = e
+    elif isinstance(e, X.ExprMem):
+        ne = X.ExprMem(ref_replace_map(e.arg, pairs, decide), e.size,
+                       ref_replace_map(e.segm, pairs, decide) if isinstance(e.segm, X.Expr) else e.segm)
+    elif isinstance(e, X.ExprOp):
+        ne = X.ExprOp(e.op, *[ref_replace_map(a, pairs, decide) for a in e.args])
+    elif isinstance(e, X.ExprCond):
+        ne = X.ExprCond(ref_replace_map(e.cond, pairs, decide), ref_replace_map(e.src1, pairs, decide), ref_replace_map(e.src2, pairs, decide))
+    elif isinstance(e, X.ExprSlice):
+        ne = X.ExprSlice(ref_replace_map(e.arg, pairs, decide), e.start, e.stop)
+    elif isinstance(e, X.ExprCompose):
+        ne = X.ExprCompose([(ref_replace_map(a[0], pairs, decide), a[1], a[2]) for a in e.args])
+    else:
+        raise ValueError(e)
+    for s, r in pairs:
+        eq = c13.struct_eq(ne, s)
+        if eq is True or (eq is not False and decide(eq)):
+            return r
+    return ne
+
+
+UCLS = None
+
+
+def pair_map(sub1, sub2, w1, w2, variant):
+    """the two-entry maps tried for a pair of disjoint sub-expressions (as a list of (key, replacement) in insertion order)"""
+    one = lambda w: X.ExprInt({1: M.uint1, 8: M.uint8, 16: M.uint16, 32: M.uint32, 64: M.uint64}[w](1))
+    r1, r2 = X.ExprId('zz', w1), X.ExprId('yy', w2)
+    if variant == 'ids':
+        return [(sub1, r1), (sub2, r2)]
+    if variant == 'order':
+        return [(sub2, r2), (sub1, r1)]
+    if variant == 'cross':      # the replacement of the first key mentions the second key (and conversely): no re-substitution
+        if w1 == w2 and w1 in G.WIDTHS:
+            return [(sub1, X.ExprOp('+', sub2, one(w1))), (sub2, X.ExprOp('^', sub1, r2))]
+        return [(sub1, X.ExprCond(sub2, r1, r1)), (sub2, X.ExprCond(sub1, r2, r2))]
+    if variant == 'swap':       # exchange the two sub-terms
+        if w1 == w2:
+            return [(sub1, sub2), (sub2, sub1)]
+        return None
+    raise ValueError(variant)
+
+PAIR_VARIANTS = ('ids', 'order', 'cross', 'swap')
+
+
 def value_shapes(tier, seed):
     rnd = random.Random(seed)
     out = []
@@ -274,6 +323,9 @@ def value_shapes(tier, seed):
             if n >= 16:
                 out += [('slice', sm1, 0, n // 2), ('compose', ((('slice', sm2, 0, n // 2), 0, n // 2), (('slice', a, n // 2, n), n // 2, n)))]
     return out
+
+
+PAIR_CAP = [6]
 
 
 def value_job(shape):
@@ -344,6 +396,56 @@ def value_job(shape):
                     return ('CEX', 'replace', 'replace_expr({%s: %s}) = %s does not denote substitution' % (sub_e, r_e, e2), eng.model_inputs(m), (s, rk))
                 if st != 'unsat':
                     return ('UNKNOWN', 'replace')
+        # replace_expr with maps of two entries over disjoint sub-expressions: simultaneous substitution
+        def decide(f):
+            if eng.prove(f):
+                return True
+            if eng.prove(z3.Not(f)):
+                return False
+            raise PathAbort('equality of sub-expressions undecided on this path')
+        def surely_differ(a, b):
+            eq = c13.struct_eq(a, b)
+            return eq is False or (eq is not True and eng.prove(z3.Not(eq)))
+        uniq = list(dict.fromkeys(s for _, s in subs if s != shape))
+        pairs = []
+        for i, s1 in enumerate(uniq):
+            for s2 in uniq[i + 1:]:
+                d1 = [x for _, x in sub_shapes(s1)]
+                d2 = [x for _, x in sub_shapes(s2)]
+                if s1 in d2 or s2 in d1:
+                    continue
+                pairs.append((s1, s2))
+        pairs = pairs[:PAIR_CAP[0]]
+        for s1, s2 in pairs:
+            w1, w2_ = w2(s1), w2(s2)
+            b1, b2 = c16.build2(s1, consts), c16.build2(s2, consts)
+            # keys must be different and not nested for every constant of the path (else the map is ambiguous: skipped)
+            if not all(surely_differ(b1, c16.build2(d, consts)) for _, d in sub_shapes(s2)) or \
+               not all(surely_differ(b2, c16.build2(d, consts)) for _, d in sub_shapes(s1)):
+                continue
+            for variant in PAIR_VARIANTS:
+                mp = pair_map(b1, b2, w1, w2_, variant)
+                if mp is None:
+                    continue
+                extra = ('pair', s1, s2, variant)
+                try:
+                    e2 = c16.build2(shape, consts).replace_expr(dict(mp))
+                except PathAbort:
+                    raise
+                except Exception as ex:
+                    return ('CEX', 'replace2-exc', 'replace_expr raises %s: %s' % (type(ex).__name__, ex), eng.model_inputs(eng.witness()), extra)
+                try:
+                    t2 = ir2smt.tr(e2, c, want=n)
+                except (ir2smt.IllTyped, ir2smt.Untranslatable) as ex:
+                    return ('CEX', 'replace2-illformed', 'result is not well-formed: %s' % ex, eng.model_inputs(eng.witness()), extra)
+                want = ir2smt.tr(ref_replace_map(c16.build2(shape, consts), mp, decide), c, want=n)
+                if t2.size() != want.size():
+                    return ('CEX', 'replace2-width', 'result has width %d' % t2.size(), eng.model_inputs(eng.witness()), extra)
+                st, m = eng.find(t2 != want)
+                if st == 'sat':
+                    return ('CEX', 'replace2', 'replace_expr({%s}) = %s does not denote simultaneous substitution' % (', '.join('%s: %s' % kv for kv in mp), e2), eng.model_inputs(m), extra)
+                if st != 'unsat':
+                    return ('UNKNOWN', 'replace2')
         return ('OK',)
     rs = eng.explore(fn)
     return eng, rs, name, {'kind': 'value', 'shape': shape}
@@ -403,6 +505,7 @@ def jobs(tier, seed):
 
 def run_job(job):
     _, tier, items = job
+    PAIR_CAP[0] = 6 if tier == 'quick' else 20
     res = {'paths': 0, 'queries': 0, 'solver_s': 0.0, 'obligations': 0, 'proved': 0, 'candidates': [],
            'inconclusive': [], 'samples': [], 'programs': 0, 'nontrivial': 0}
     for it in items:
@@ -505,6 +608,19 @@ else:
             if tc.size() != t.size(): bad = True
             else: s.add(tc != t); bad = s.check() == z3.sat
         else:
+            if D['extra'][0] == 'pair':
+                _, s1, s2, variant = D['extra']
+                mp = c15.pair_map(c16.build2(s1, consts), c16.build2(s2, consts), c15.w2(s1), c15.w2(s2), variant)
+                e2 = c16.build2(D['shape'], consts).replace_expr(dict(mp))
+                print(e, '.replace_expr({%%s}) =' %% ', '.join('%%s: %%s' %% kv for kv in mp), e2)
+                try:
+                    t2 = ir2smt.tr(e2, c, want=n)
+                    want = ir2smt.tr(c15.ref_replace_map(c16.build2(D['shape'], consts), mp, lambda f: z3.is_true(z3.simplify(f))), c, want=n)
+                    if t2.size() != want.size(): bad = True
+                    else: s.add(t2 != want); bad = s.check() == z3.sat
+                except (ir2smt.IllTyped, ir2smt.Untranslatable) as ex:
+                    print('not well-formed:', ex); bad = True
+                print('C15 replay:', 'VIOLATED' if bad else 'holds'); sys.exit(1 if bad else 0)
             sshape, rk = D['extra']; w = c15.w2(sshape)
             sub_e = c16.build2(sshape, consts); ts = ir2smt.tr(sub_e, c)
             r_e = X.ExprId('zz', w) if rk == 'id' else X.ExprOp('+', X.ExprId('zz', w), X.ExprInt({1: M.uint1, 8: M.uint8, 16: M.uint16, 32: M.uint32, 64: M.uint64}[w](1)))
@@ -547,7 +663,7 @@ def main(argv=None):
     cov['functions_encoded'] = ['miasmx.expression.expression:__eq__/__ne__/__hash__/copy/visit of ExprInt, ExprId, ExprAff, ExprCond, ExprMem, ExprOp, ExprSlice, ExprCompose',
                                 'Expr.replace_expr', 'Expr.canonize', 'canonize_expr_list/_compose, key_expr']
     cov['bounds'] = ('18 node builders with symbolic sizes (1..128), slice/compose bounds (0..64) and constants; 3-element name alphabet; '
-                     'value laws over rule templates + depth-1 shapes (sampled in quick), replacement maps of size 1 over every sub-expression, replacements {identifier, identifier+1}')
+                     'value laws over rule templates + depth-1 shapes (sampled in quick), replacement maps of size 1 over every sub-expression, replacements {identifier, identifier+1}; maps of size 2 over up to 6 (quick) / 20 (thorough) pairs of disjoint, provably different sub-expressions per shape in 4 variants (fresh identifiers, reversed insertion order, replacements that mention the other key, exchange of the two sub-terms)')
     if cov['proved'] == 0:
         herr.append('vacuous: nothing proved')
     assumptions = ['hash of an integer n: n itself for 0 <= n < 2^61-1 (CPython), an uninterpreted function of the value beyond; str hashes concrete', 'E1 meaning of the IR', 'z3 5.1.0', 'SInt proxy']
